@@ -15,7 +15,7 @@ import common
 import pyutil
 
 ID = "C20"
-LABELS = ["", "", "", "a", "ct", "dl", "x1"]
+LABELS = ["", "", "", "a", "ct", "dl", "x1", "ct_1", "R_s", "double_layer"]
 DRAW = re.compile(r"\\draw \(([-\d.e]+),([-\d.e]+)\) (?:node\[above\]\{.*?\} )?to\[(.*?)\] \(([-\d.e]+),([-\d.e]+)\)")
 
 
@@ -156,6 +156,11 @@ def run(ctx):
             other_exports(ctx, circuit, desc, normal)
         if len(ctx.failing) > 6:
             break
+    # containers: elements nested in the sub-circuits of a transmission line share the circuit-wide numbering
+    from pyimpspec import parse_cdc
+    for cdc in ["RRTlm", "RQTlm", "Tlm{X_1=[R], X_2=[R]}", "LR(Q[RW])Tlm", "R(C[RTlm])", "RTlm{X_1=[R], X_2=[R], Z_A=[Q], Z_B=[R], Zeta=[Q]}"][: (6 if ctx.thorough else 3)]:
+        other_exports(ctx, parse_cdc(cdc), {"cdc": cdc}, True)
+        ndraw += 1
     ctx.counters["diffs"] = nd
     ctx.counters["other-exports-checked"] = ndraw
     ctx.sample({"line": lines[3][:200], "model": out[3][:300]})
@@ -186,6 +191,24 @@ def other_exports(ctx, circuit, desc, normal):
               # (a parameter may cancel out of the expression: only more variables than parameters, or collisions, are errors)
               if len(syms - {"f"}) > nparams:
                   ctx.add_failing("variables-per-parameter", desc, observed=len(syms - {"f"}), expected=nparams, clause="exactly one variable per parameter")
+          if not labels:
+              # one variable per parameter also means: no variable stands for two parameters.  The variables are the fitting
+              # identifiers; substituting every parameter's value under its own name must reproduce the impedance
+              import sympy
+              from pyimpspec.analysis.fitting import generate_fit_identifiers
+              ids = generate_fit_identifiers(circuit)
+              want = {getattr(m, k) for e, m in ids.items() for k in e.get_values()}
+              if not (syms - {"f"}) <= want:
+                  ctx.add_failing("variables-per-parameter", desc, observed=sorted(syms - {"f"} - want), expected=f"variables among {sorted(want)}", clause="exactly one variable per parameter")
+              else:
+                  sub = {getattr(m, k): (v if np.isfinite(v) else sympy.oo) for e, m in ids.items() for k, v in e.get_values().items()}
+                  f0 = 37.0
+                  z = complex(sympy.N(expr.subs(sub).subs("f", f0)))
+                  with np.errstate(all="ignore"):
+                      zr = complex(circuit.get_impedances(np.array([f0]))[0])
+                  ctx.count("sympy:one-variable-per-parameter")
+                  if np.isfinite(zr) and np.isfinite(z) and not (abs(z - zr) <= 1e-6 * abs(zr)):
+                      ctx.add_failing("variables-per-parameter", desc, observed=f"substituting each parameter's value for its variable gives {z}", expected=f"{zr}", clause="exactly one variable per parameter (a variable stands for two different parameters)")
           circuit.to_latex()
           ctx.count("sympy/latex:ok")
     except TimeoutError:
